@@ -145,6 +145,7 @@ class SimLoop(asyncio.BaseEventLoop):
         protocol = protocol_factory()
         tr = SimTransport(world, idx, host, port, peer, spec, self, protocol)
         tr.tamper = world.tampers.get(idx)
+        tr.tx_tamper = world.tx_tampers.get(idx)
         world.conns.append(tr)
         protocol.connection_made(tr)
         peer.on_connect(tr)
@@ -232,8 +233,7 @@ class SimTransport(net.Conn, asyncio.Transport):
     def write(self, data) -> None:
         if self._closing:
             return
-        data = bytes(data)
-        self._client_wrote(data)
+        data = self._client_wrote(bytes(data))
         loop = self._loop
 
         def cb():
